@@ -1,15 +1,15 @@
 (* The SSB machine model of the properties: ops run in order; Jump always goes; a branch, case or
    call op goes to its target exactly when taken; flow-ending ops stop; running past the last op of
    a routine stops.  Given as a translation of a routine set into a [cfg]. *)
-From ES Require Import Base Ssb.Param Ssb.Cfg Gen.SpecialOps.
+From ES Require Import Base Ssb.Param Ssb.Cfg Ssb.Tables.
 
 Record op := mkOp { off : Z; code : string; params : list param }.
 Definition routine := list op.
 Definition program := list routine.
 
-Definition jump_index (c : string) : option nat := assoc_string c OPS_WITH_JUMP_TO_MEM_OFFSET.
-Definition ends_flow (c : string) : bool := mem_string c OPS_THAT_END_CONTROL_FLOW.
-Definition is_ctx (c : string) : bool := mem_string c OPS_CTX.
+Definition jump_index (c : string) : option nat := assoc_string c jump_table.
+Definition ends_flow (c : string) : bool := mem_string c flow_end_ops.
+Definition is_ctx (c : string) : bool := mem_string c ctx_ops.
 Definition is_jump (c : string) : bool := String.eqb c OP_JUMP.
 
 Definition all_ops (P : program) : list op := concat P.
@@ -28,8 +28,8 @@ Fixpoint remove_nth {A} (n : nat) (l : list A) : list A :=
   | x :: r, S n' => x :: remove_nth n' r
   end.
 
-(* Node for one op.  [g] = its global index, [nxt] = where control continues, [prev_ctx] = the op
-   before it in list order is a context op (then it can not end the flow). *)
+(* Node for one op.  [nxt] = where control continues, [prev_ctx] = the op before it in list order is
+   a context op (then it can not end the flow).  [stopn] = the stop node. *)
 Definition node_of_op (all : list op) (stopn : nat) (o : op) (nxt : nat) (prev_ctx : bool) : node :=
   match jump_index (code o) with
   | Some idx =>
@@ -48,24 +48,29 @@ Definition node_of_op (all : list op) (stopn : nat) (o : op) (nxt : nat) (prev_c
       else NOp (code o, params o) nxt
   end.
 
-Fixpoint nodes_of_routine (all : list op) (stopn : nat) (r : routine) (g : nat) (prev_ctx : bool) : list node :=
+(* [fall] = the node reached by running past the last op of a routine *)
+Fixpoint nodes_of_routine (all : list op) (fall stopn : nat) (r : routine) (g : nat) (prev_ctx : bool) : list node :=
   match r with
   | [] => []
   | o :: rest =>
-      let nxt := match rest with [] => stopn | _ => S g end in
-      node_of_op all stopn o nxt prev_ctx :: nodes_of_routine all stopn rest (S g) (is_ctx (code o))
+      let nxt := match rest with [] => fall | _ => S g end in
+      node_of_op all stopn o nxt prev_ctx :: nodes_of_routine all fall stopn rest (S g) (is_ctx (code o))
   end.
 
-Fixpoint nodes_of_program (all : list op) (stopn : nat) (P : program) (g : nat) : list node :=
+Fixpoint nodes_of_program (all : list op) (fall stopn : nat) (P : program) (g : nat) : list node :=
   match P with
   | [] => []
-  | r :: rest => nodes_of_routine all stopn r g false ++ nodes_of_program all stopn rest (g + length r)
+  | r :: rest => nodes_of_routine all fall stopn r g false ++ nodes_of_program all fall stopn rest (g + length r)
   end.
 
-(* node [length (all_ops P)] is the stop node *)
+(* Running off the end of a routine stops it "like return": it is the event Return followed by
+   stop.  Node [n] (n = number of ops) is that implicit return, node [n+1] the stop node. *)
+Definition implicit_return (stopn : nat) : node := NOp (OP_RETURN, []) stopn.
+
 Definition cfg_of_ssb (P : program) : cfg :=
   let all := all_ops P in
-  nodes_of_program all (length all) P 0 ++ [NStop].
+  let n := length all in
+  nodes_of_program all n (S n) P 0 ++ [implicit_return (S n); NStop].
 
 (* entry node of every routine; an empty (alias) routine has none *)
 Fixpoint entries_of (P : program) (g : nat) : list (option nat) :=
